@@ -646,4 +646,8 @@ def bytes_to_str(b):
 
 
 def unquote_to_wsgi_str(string):
+    # the path is a latin-1 decoded byte string; unquote_to_bytes() would
+    # encode a str as UTF-8 and turn every raw byte >= 0x80 into two
+    if isinstance(string, str):
+        string = string.encode('latin-1')
     return urllib.parse.unquote_to_bytes(string).decode('latin-1')
